@@ -14,6 +14,9 @@ def main():
         uuid.uuid4 = lambda: uuid.UUID(int=rnd.getrandbits(128), version=4)
     from harness import simdrv as S
     import random as _r
+    if job.get('callable_laws'):
+        from harness import impl
+        impl.CALLABLE_LAWS = True
     for i in range(job.get('warmup', 0)):
         S.drive(S.gen_sim(_r.Random(1000 + i)), 3)
     if job.get('counter_start'):
